@@ -67,8 +67,8 @@ def ops : List Op := [
             match toCmds ae sOutput cmds ⟨[[]], 0⟩ with
             | none => "OUTSIDE"
             | some r =>
-              let text := Bytes.toHexWire (printPieces (renderStmts 1 r.1))
-              match execStmts libF fuel r.1 ⟨optData, none, [(sOutput, .str [])]⟩ with
+              let text := Bytes.toHexWire (printPieces (renderStmts false 1 r.1))
+              match execStmts libF (fun _ _ => .unspec) fuel r.1 ⟨optData, none, [(sOutput, .str [])]⟩ with
               | .ok e =>
                 (match e.locals.find? (·.1 == sOutput) with
                   | some (_, .str out) => "OK " ++ Bytes.toHexWire out ++ " " ++ text
